@@ -28,7 +28,7 @@ L == INSTANCE LRU WITH Caps <- {}, NK <- 0, Alias <- FALSE, Expirable <- FALSE,
                        phase <- "none", cap <- 0, order <- <<>>, val <- <<>>, stale <- {},
                        next <- 1, dead <- <<>>, hist <- <<>>
 
-Procs == 1 .. 8
+Procs == 1 .. 16    \* 9 .. 16: the nested call a create function makes on the same cache
 NoOp == [none |-> TRUE]
 Ev == Trace[l]
 vars == <<st, cap, pend, creating, made, gone, l>>
